@@ -102,6 +102,11 @@ class C17(vlib.Check):
         pairs += [(b'{}|{6}|{>6}', ['b:1', 'b:0', 'b:1']), (b'{}{4}', ['sn', 'sn']),
                   (b'{&2}-{}-{&1}-{}', ['s:' + hx(U('é')), 'i32:7']), (U('α{}β{}γ{}δ{}ε'), ['i32:1', 'S:' + hx(U('€')), 'b:1', 'c32:128512']),
                   (b'{{{}}}', ['i32:5']), (b'}}{{', []), (b'plain', []), (b'', []), (U('ünï'), [])]
+        # an argument of a user-defined type whose formatter calls ST::format itself (a nested call while the outer one is
+        # running), through every sink
+        for t in (U('(1,2)'), U('v2.07'), U('p\u00e9')):
+            pairs += [(b'lib {} ready', ['n:' + hx(t)]), (b'id={} at {} end', ['i32:17', 'n:' + hx(t)]), (b'{>9}|{}', ['n:' + hx(t), 'n:' + hx(t)]),
+                      (b'{}{}{}', ['n:' + hx(t), 's:' + hx(U('x')), 'n:' + hx(t)])]
         # calls that stop half way
         pairs += [(b'abc{', ['i32:1']), (b'abc{}def{}', ['i32:1']), (U('é') + b'{}{Z}', ['i32:1']), (b'{}{&3}', ['i32:1', 'i32:2']),
                   (b'x{', []), (b'{}', []), (b'a{5}b{.', ['s:7a']), (b'{_', ['i32:1']), (b'12{&0}', ['i32:1'])]
